@@ -336,12 +336,20 @@ fn encode_feature(f: &Feature, m: &mut Mix) -> Vec<u8> {
 	let write_empty_tags = m.below(3) == 0;
 	let write_type_zero = m.below(2) == 0;
 	let write_empty_geom = m.below(3) == 0;
+	// a packed repeated field may arrive in several chunks, which a reader concatenates
+	// (protobuf encoding rules: "packed repeated fields ... more than one key-value pair")
+	let split_tags = m.below(8) == 0;
+	let split_geom = m.below(8) == 0;
 	let mut id = vec![];
 	if let Some(i) = f.id {
 		put_uint(&mut id, 1, i);
 	}
 	let mut tags = vec![];
-	if !f.tags.is_empty() || write_empty_tags {
+	if split_tags && f.tags.len() >= 2 {
+		let cut = 1 + (f.tags.len() - 1) / 2;
+		put_len(&mut tags, 2, &packed(&f.tags[..cut]));
+		put_len(&mut tags, 2, &packed(&f.tags[cut..]));
+	} else if !f.tags.is_empty() || write_empty_tags {
 		put_len(&mut tags, 2, &packed(&f.tags));
 	}
 	let mut typ = vec![];
@@ -349,7 +357,11 @@ fn encode_feature(f: &Feature, m: &mut Mix) -> Vec<u8> {
 		put_uint(&mut typ, 3, f.geom_type as u64);
 	}
 	let mut geom = vec![];
-	if !f.geometry.is_empty() || write_empty_geom {
+	if split_geom && f.geometry.len() >= 2 {
+		let cut = 1 + (f.geometry.len() - 1) / 2;
+		put_len(&mut geom, 4, &packed(&f.geometry[..cut]));
+		put_len(&mut geom, 4, &packed(&f.geometry[cut..]));
+	} else if !f.geometry.is_empty() || write_empty_geom {
 		put_len(&mut geom, 4, &packed(&f.geometry));
 	}
 	let parts: [&Vec<u8>; 4] = match order {
@@ -527,7 +539,8 @@ fn decode_feature(b: &[u8]) -> Result<Feature, String> {
 	let mut seen = [false; 5];
 	while !r.done() {
 		let (field, wire) = r.key()?;
-		if (1..=4).contains(&field) {
+		// the scalar fields once; the packed ones may come in chunks, which are concatenated
+		if field == 1 || field == 3 {
 			if seen[field as usize] {
 				return Err(format!("feature: field {field} occurs twice"));
 			}
@@ -535,7 +548,7 @@ fn decode_feature(b: &[u8]) -> Result<Feature, String> {
 		}
 		match (field, wire) {
 			(1, 0) => f.id = Some(r.varint()?),
-			(2, 2) => f.tags = unpack_u32(r.bytes()?, "tags")?,
+			(2, 2) => f.tags.extend(unpack_u32(r.bytes()?, "tags")?),
 			(3, 0) => {
 				let t = r.varint()?;
 				if t > u32::MAX as u64 {
@@ -543,7 +556,7 @@ fn decode_feature(b: &[u8]) -> Result<Feature, String> {
 				}
 				f.geom_type = t as u32;
 			}
-			(4, 2) => f.geometry = unpack_u32(r.bytes()?, "geometry")?,
+			(4, 2) => f.geometry.extend(unpack_u32(r.bytes()?, "geometry")?),
 			(f, w) => return Err(format!("feature: unexpected field {f} with wire type {w}")),
 		}
 	}
